@@ -113,7 +113,7 @@ struct Domains {
   std::vector<std::vector<std::pair<std::string, int>>> termlists;
   std::vector<RawRule> rules1, rules2a, rules2b;   // full menu for single-rule descriptions, reduced menus for (first, second) rule of a pair
 };
-// mode 0: full menu; 1: first rule of a pair; 2: second rule of a pair (quick); 3: reduced translation menu, all shapes (thorough pairs)
+// mode 0: full menu; 1: first rule of a pair; 2: second rule of a pair (quick); 3: reduced translation menu, all shapes (thorough pairs, second rule); 4: as 3 without the plain `# 0' form (thorough pairs, first rule)
 static std::vector<RawRule> rule_menu(int mode) {
   std::vector<RawRule> out;
   std::vector<std::string> lhss{"S", "A", "a", "error", "$S"};
@@ -128,6 +128,7 @@ static std::vector<RawRule> rule_menu(int mode) {
   if (mode == 0) trs = {{false, 0, false, {}}, {false, 0, true, {}}, {false, 0, true, {0}}, {false, 0, true, {1}}, {false, 0, true, {0, 1}}, {false, 0, true, {2}}, {false, 0, true, {INT_MAX}}, {false, -1, true, {0}},
                    {true, 1, true, {0}}, {true, 0, true, {0, 1}}, {true, 1, true, {1, 0}}, {true, 1, true, {}}, {true, -1, true, {0}}, {true, 1, true, {0, 0}}, {true, 1, true, {0, INT_MAX}}, {true, 1, true, {2}}, {true, 2, false, {}}};
   else if (mode == 1) trs = {{false, 0, false, {}}, {true, 1, true, {0}}};
+  else if (mode == 4) trs = {{false, 0, false, {}}, {true, 1, true, {0}}, {true, 1, true, {1, 0}}};
   else trs = {{false, 0, false, {}}, {false, 0, true, {0}}, {true, 1, true, {0}}, {true, 1, true, {1, 0}}};
   for (auto &l : lhss) for (auto &r : rhss) for (auto &t : trs) out.push_back(RawRule{l, r, t.anode, "n", t.cost, t.has, t.tr});
   return out;
@@ -146,7 +147,7 @@ static Domains make_domains(bool thorough) {
     D.termlists.push_back({{"a", 0}, {"error", 5}}); D.termlists.push_back({{"b", 7}, {"a", 300}}); D.termlists.push_back({{"a", 0}, {"$eof", 1}});
   }
   D.rules1 = rule_menu(0);
-  D.rules2a = rule_menu(thorough ? 3 : 1);
+  D.rules2a = rule_menu(thorough ? 4 : 1);
   D.rules2b = rule_menu(thorough ? 3 : 2);
   return D;
 }
